@@ -165,6 +165,94 @@ def exhaustive(ctx, maxlen):
     ctx.extra['reader_runs'] = ctx.extra.get('reader_runs', 0) + runs
 
 
+# -- reader with a size limit --------------------------------------------------------
+
+def run_limited(wire, trailer, max_size, cuts):
+    """-> (outcome, leftover); outcome = ('content', bytes) | ('exc', type name)"""
+    stream = wire + trailer
+    segs = []
+    for s_ in cut(stream, cuts):
+        for i in range(0, len(s_), 4096):
+            segs.append(s_[i:i + 4096])
+    sock = ScriptedSocket(segs)
+    io = IO(sock, ('peer', 1))
+    reader = DataReader(io, max_size)
+    try:
+        outcome = ('content', reader.recv())
+    except Exception as e:
+        outcome = ('exc', type(e).__name__)
+    return outcome, io.recv_buffer + sock.unread()
+
+
+def judge_limited(msg, trailer, max_size, cut_lists):
+    """With a size limit the reader either returns the content or reports the message as too big; in both cases it consumes
+    exactly up to the end-of-data line, and neither the outcome nor what is left unread depends on the segmentation."""
+    wire = b''.join(DataSender(msg))
+    base, left = run_limited(wire, trailer, max_size, ())
+    out = []
+    if base[0] == 'exc' and base[1] != 'MessageTooBig':
+        return [('C05:limited-reader-exception:%s' % base[1], 'wire=%r max_size=%d' % (wire[:60], max_size))]
+    if left != trailer:
+        return [('C05:limited-leftover', 'wire=%r trailer=%r max_size=%d burst: outcome %r left %r'
+                 % (wire[:60], trailer[:20], max_size, base[0] if base[0] == 'exc' else 'content', left[:40]))]
+    if base[0] == 'content' and base[1] != expected_content(msg):
+        return [('C05:limited-content', 'wire=%r max_size=%d: got %r' % (wire[:60], max_size, base[1][:60]))]
+    for cuts in cut_lists:
+        got, gl = run_limited(wire, trailer, max_size, cuts)
+        if got != base or gl != left:
+            out.append(('C05:limited-segmentation-dependent',
+                        'wire=%r trailer=%r max_size=%d cuts=%r: burst -> (%r, left %r), cut -> (%r, left %r)'
+                        % (wire[:60], trailer[:20], max_size, list(cuts)[:8], base[1] if base[0] == 'exc' else base[1][:30], left[:30],
+                           got[1] if got[0] == 'exc' else got[1][:30], gl[:30])))
+            break
+    return out
+
+
+def limited_part(ctx, maxlen):
+    index = 0
+    runs = 0
+    for n in range(1, maxlen + 1):
+        for letters in itertools.product(ALPHABET, repeat=n):
+            msg = b''.join(letters)
+            for max_size in (1, 2, 3, 4, 5, 6, 8):
+                index += 1
+                if not ctx.mine(index):
+                    continue
+                for trailer in (b'', b'QUIT\r\n', b'.\r\n'):
+                    total = len(msg) + len(trailer) + 8
+                    cut_lists = [tuple(range(1, total))] + [(c,) for c in range(1, total)] + \
+                                [(a, b) for a in range(1, min(total, 9)) for b in range(a + 1, min(total, 10))]
+                    runs += len(cut_lists) + 1
+                    f = judge_limited(msg, trailer, max_size, cut_lists)
+                    ctx.record(('limited', msg, max_size, trailer), True, labels=['size-limit', 'exhaustive'],
+                               case=lambda: {'limited': True, 'msg': hexb(msg), 'max_size': max_size, 'trailer': hexb(trailer)},
+                               failures=f)
+    ctx.extra['reader_runs'] = ctx.extra.get('reader_runs', 0) + runs
+
+
+@st.composite
+def limited_case(draw):
+    lines = draw(st.lists(st.sampled_from([b'a\r\n', b'line.\r\n', b'..\r\n', b'.x\r\n', b'0123456789\r\n', b'x.', b'\n', b'\r', b'. \r\n',
+                                           b'QUIT\r\n', b'end.\r\n']), min_size=1, max_size=12))
+    msg = b''.join(lines)
+    max_size = draw(st.one_of(st.integers(1, 30), st.integers(max(1, len(msg) - 4), len(msg) + 6)))
+    trailer = draw(st.sampled_from([b'', b'QUIT\r\n', b'.\r\n', b'MAIL FROM:<x>\r\n.\r\n']))
+    return msg, max_size, trailer
+
+
+def limited_random(ctx, n):
+    def one(v):
+        msg, max_size, trailer = v
+        total = len(msg) + len(trailer) + 20
+        marks = [i for i in range(total) if (msg + b'\r\n.\r\n' + trailer)[i:i + 1] == b'.']
+        cut_lists = [tuple(range(1, total))] + [(m + o,) for m in marks[:10] for o in (0, 1, 2)] + \
+                    [(m, m + 1) for m in marks[:6]] + [(m + 1, m + 2) for m in marks[:6]]
+        f = judge_limited(msg, trailer, max_size, cut_lists)
+        ctx.record(('limited', msg, max_size, trailer), True, labels=['size-limit', 'random'],
+                   case=lambda: {'limited': True, 'msg': hexb(msg), 'max_size': max_size, 'trailer': hexb(trailer)}, failures=f)
+    hyp.drive(ctx, limited_case(), one, n, salt=3)
+
+
 # -- random part ----------------------------------------------------------------
 
 _line_piece = st.one_of(
@@ -224,10 +312,18 @@ def run_shard(ctx):
         from vf import fuzz
         fuzz.run(ctx, ID, 90, FUZZ_SEEDS)
     exhaustive(ctx, 9 if ctx.thorough else 7)
+    limited_part(ctx, 6 if ctx.thorough else 4)
+    limited_random(ctx, ctx.n(3000, 60000))
     random_part(ctx, ctx.n(20000, 400000))
 
 
 def replay(case):
+    if case.get('limited'):
+        msg = unhex(case['msg'])
+        trailer = unhex(case.get('trailer', ''))
+        total = len(msg) + len(trailer) + 20
+        cut_lists = [tuple(range(1, total))] + [(c,) for c in range(1, total)] + [(a, a + 1) for a in range(1, total)]
+        return judge_limited(msg, trailer, max(1, int(case.get('max_size', 1))), cut_lists)
     msg = unhex(case['msg'])
     parts = tuple(unhex(p) for p in case.get('parts', [])) or (msg,)
     if b''.join(parts) != msg:
